@@ -345,7 +345,7 @@ fn signatures(spec: &ModelSpec, chain: bool, cross: bool, bc_lib: &[(String, f64
     }
     if spec.family == Family::PcSaftFunctional && spec.has_polar() {
         v.push(Sig {
-            id: "C13/polar-third-virial",
+            id: "C13/polar-third-virial-functional",
             why: "polar part of the attractive functional falls back to phi2 when phi2^2/(phi2-phi3) is 0/0 at rho = 0 (src/pcsaft/dft/polar.rs:175-180, 263-268, 363-368)",
             covers: names_with(bc_lib, &["attractive"]),
             nan: false,
